@@ -27,12 +27,15 @@ __CPROVER_frees(p)
 
 bool decode_file(struct decoder *dec, const char *filename, FILE *f)
 __CPROVER_requires(__CPROVER_is_fresh(dec, sizeof(*dec)) && DECODER_OK(dec))
-__CPROVER_requires(VERIF_ANY_DIALECT || (dec->dialect == DIALECT && mon_map == &SPEC_MAP && mon_listo == dec->listo))
+__CPROVER_requires(VERIF_ANY_DIALECT || (dec->dialect == DIALECT && mon_map == &dec->xmap && mon_listo == dec->listo))
 __CPROVER_requires(VERIF_ANY_DIALECT || (fmon_on && mon_on))
-__CPROVER_requires(g_pos == 0 && g_len <= VERIF_FILE_MAX)
-__CPROVER_requires(fmon_phase == FPH_START && fmon_lines == g_lines_listed && g_lines_listed < (1ul << 38))
-__CPROVER_requires(mon_indent_run == 0)
-__CPROVER_requires(G_DIAG_ROOM_L3 && !g_read_error_happened)
+/* the stream is positioned at the start of its file and the specification monitors are in their
+   "new program" state.  At main level (VERIF_ANY_DIALECT) this is an environment assumption: every
+   stream handed over is freshly opened, or is standard input named at most once (DESIGN.md C08). */
+__CPROVER_requires(VERIF_ANY_DIALECT || (g_pos == 0 && g_len <= VERIF_FILE_MAX))
+__CPROVER_requires(VERIF_ANY_DIALECT || (fmon_phase == FPH_START && fmon_lines == g_lines_listed && g_lines_listed < (1ul << 38)))
+__CPROVER_requires(VERIF_ANY_DIALECT || (mon_indent_run == 0 && !g_read_error_happened))
+__CPROVER_requires(G_DIAG_ROOM_L3)
 __CPROVER_assigns(L3_GHOST_FRAME)
 L3_ENSURES
 ;
@@ -62,25 +65,26 @@ __CPROVER_requires(G_DIAG_ROOM && !mon_on)
 __CPROVER_assigns(G)
 __CPROVER_ensures(g_diag >= __CPROVER_old(g_diag) && g_diag <= __CPROVER_old(g_diag) + 8)
 __CPROVER_ensures(__CPROVER_return_value ==> g_wfail == __CPROVER_old(g_wfail))
-__CPROVER_ensures(!__CPROVER_return_value ==> (g_diag > __CPROVER_old(g_diag) || g_wfail != __CPROVER_old(g_wfail)))
+__CPROVER_ensures(!__CPROVER_return_value ==> g_diag > __CPROVER_old(g_diag))
 ;
 
 /* C08: exit status 0 or 1; non-zero comes with a diagnostic.  C11: 0 implies no write failed.
    g_argv_ok: argv[0..argc] are the harness' opaque strings. */
 int wrapped_main(int argc, char *argv[])
 __CPROVER_requires(argc >= 1 && argc <= VERIF_ARGC_MAX && argc == verif_argc && verif_optind == 1)
-__CPROVER_requires(__CPROVER_is_fresh(argv, (VERIF_ARGC_MAX + 1) * sizeof(char *)))
+__CPROVER_requires(argv == h_argv)     /* harness: argv[i] -> 16-byte NUL-terminated unconstrained strings */
 __CPROVER_requires(!mon_on && !fmon_on && g_diag < (1ul << 40))
 __CPROVER_requires(g_len <= VERIF_FILE_MAX && g_lines_listed < (1ul << 30))
 __CPROVER_assigns(G, GL, GF, verif_optind, verif_optarg, __CPROVER_object_whole(verif_optarg_obj))
 __CPROVER_ensures(__CPROVER_return_value == 0 || __CPROVER_return_value == 1)
+__CPROVER_ensures(g_diag >= __CPROVER_old(g_diag) && g_diag <= __CPROVER_old(g_diag) + 4096)
 __CPROVER_ensures(__CPROVER_return_value == 1 ==> g_diag > __CPROVER_old(g_diag))
 __CPROVER_ensures(__CPROVER_return_value == 0 ==> g_wfail == __CPROVER_old(g_wfail))
 ;
 
 int main(int argc, char *argv[])
 __CPROVER_requires(argc >= 1 && argc <= VERIF_ARGC_MAX && argc == verif_argc && verif_optind == 1)
-__CPROVER_requires(__CPROVER_is_fresh(argv, (VERIF_ARGC_MAX + 1) * sizeof(char *)))
+__CPROVER_requires(argv == h_argv)     /* harness: argv[i] -> 16-byte NUL-terminated unconstrained strings */
 __CPROVER_requires(!mon_on && !fmon_on && g_diag < (1ul << 40))
 __CPROVER_requires(g_len <= VERIF_FILE_MAX && g_lines_listed < (1ul << 30))
 __CPROVER_assigns(G, GL, GF, verif_optind, verif_optarg, __CPROVER_object_whole(verif_optarg_obj))
